@@ -125,7 +125,7 @@ class PipeShape(Shape):
         d = {'kind': o.kind, 'image': o.image}
         if self.params.get('also_json'):
             j = self.case.run_cli(model, config_json=True)      # the same definition written as JSON
-            d['as_json'] = {'kind': j.kind, 'image': j.image}
+            d['json_run'] = {'kind': j.kind, 'image': j.image}
         return d
 
     def cli_agrees(self, summary, cli):
@@ -134,9 +134,9 @@ class PipeShape(Shape):
     def judge_cli(self, summary, cli):
         """C14 at the level where it is stated - the command line: exit status versus the image file"""
         extra = {}
-        if cli.get('as_json') is not None:
+        if cli.get('json_run') is not None:
             extra[f"{self.params.get('props', ['C19'])[0]}.definition_written_as_json_is_treated_like_the_yaml_one"] = \
-                (cli['as_json']['kind'], cli['as_json']['image']) == (cli['kind'], cli['image'])
+                (cli['json_run']['kind'], cli['json_run']['image']) == (cli['kind'], cli['image'])
         if 'C14' not in self.params.get('props', []):
             return extra
         binary = self.params.get('binary', True)
